@@ -139,23 +139,24 @@ type StepRec struct {
 }
 
 type World struct {
-	Cfg          *CaseConfig
-	Keys         *spi.Keys
-	Log          *spi.Log
-	Nodes        map[string]*Node
-	Order        []string // correct node ids, sorted
-	Pool         []*Flight
-	Seen         []*Flight // every message ever put on the wire (honest and adversarial)
-	Clock        uint64
-	GST          bool
-	Rng          *rand.Rand
-	Mon          *Monitors
-	Trace        []StepRec
-	emit         uint64
-	comms        map[uint64]*ref.Committee
-	Canon        map[uint64]*CommitRec // first commit seen per height (for sync / prev proofs)
-	KeepTrace    bool
-	SplitHandoff bool // main-loop and worker halves of syncs / elections may be separated by other steps
+	Cfg              *CaseConfig
+	Keys             *spi.Keys
+	Log              *spi.Log
+	Nodes            map[string]*Node
+	Order            []string // correct node ids, sorted
+	Pool             []*Flight
+	Seen             []*Flight // every message ever put on the wire (honest and adversarial)
+	Clock            uint64
+	GST              bool
+	Rng              *rand.Rand
+	Mon              *Monitors
+	Trace            []StepRec
+	emit             uint64
+	comms            map[uint64]*ref.Committee
+	Canon            map[uint64]*CommitRec // first commit seen per height (for sync / prev proofs)
+	KeepTrace        bool
+	ReverseToLaggers bool
+	SplitHandoff     bool // main-loop and worker halves of syncs / elections may be separated by other steps
 }
 
 func (w *World) Comm(h uint64) *ref.Committee {
